@@ -29,6 +29,7 @@ pub struct Field {
     half: BigUint,     // (p-1)/2
     sqrt_exp: BigUint, // (p+1)/4   (p = 3 mod 4)
     inv_exp: BigUint,  // p-2
+    pp: BigUint,       // p*p
 }
 
 #[derive(Clone, Debug, PartialEq, Eq)]
@@ -70,6 +71,7 @@ impl Field {
             half: (&p - &one) >> 1,
             sqrt_exp: (&p + &one) >> 2,
             inv_exp: &p - BigUint::from(2u32),
+            pp: &p * &p,
             p,
             r,
         }
@@ -114,15 +116,20 @@ impl Field {
         if is_zero(&a.c1) && is_zero(&b.c1) {
             return Fp2 { c0: self.mul(&a.c0, &b.c0), c1: zero() };
         }
-        // (a0 + a1 u)(b0 + b1 u) = a0 b0 - a1 b1 + (a0 b1 + a1 b0) u
-        let t0 = self.mul(&a.c0, &b.c0);
-        let t1 = self.mul(&a.c1, &b.c1);
-        let t2 = self.mul(&a.c0, &b.c1);
-        let t3 = self.mul(&a.c1, &b.c0);
-        Fp2 { c0: self.sub(&t0, &t1), c1: self.add(&t2, &t3) }
+        // (a0 + a1 u)(b0 + b1 u) = a0 b0 - a1 b1 + (a0 b1 + a1 b0) u ; one reduction per coefficient
+        // (p^2 is added before the subtraction so the intermediate stays non-negative)
+        let c0 = (&a.c0 * &b.c0 + &self.pp - &a.c1 * &b.c1) % &self.p;
+        let c1 = (&a.c0 * &b.c1 + &a.c1 * &b.c0) % &self.p;
+        Fp2 { c0, c1 }
     }
     fn sqr2(&self, a: &Fp2) -> Fp2 {
-        self.mul2(a, a)
+        if is_zero(&a.c1) {
+            return Fp2 { c0: self.mul(&a.c0, &a.c0), c1: zero() };
+        }
+        // (a0 + a1 u)^2 = (a0 + a1)(a0 - a1) + 2 a0 a1 u
+        let c0 = ((&a.c0 + &a.c1) * (&a.c0 + &self.p - &a.c1)) % &self.p;
+        let c1 = ((&a.c0 * &a.c1) << 1) % &self.p;
+        Fp2 { c0, c1 }
     }
     fn dbl2(&self, a: &Fp2) -> Fp2 {
         self.add2(a, a)
